@@ -13,7 +13,7 @@ def run(ctx):
         sh.append(dict(name="%s/asan-rel" % part.lower(), src=SRC, flavour="asan-rel", defines=["SH_" + part], primary=False))
     ctx.run_shards(sh, timeout=3600)
     return ctx.finish(
-        rule=("(1) clamp<identity<V^N>> for V in {int,unsigned,size_t,long,float,double}, N 1..4 (shows the delegated coordinate): seeded random "
+        rule=("(1) clamp<identity<V^N>> for V in {int,unsigned,size_t,long,float,double}, N 1..4, the coordinate descriptor spelled with the library aliases (int3, ulong4, float2, ...; the alias table itself is observed too) (shows the delegated coordinate): seeded random "
               "boxes lo<=hi (incl. lo=hi, negative, type extremes as bounds; every fourth box written with ONE scalar per member -- every eighth with a scalar of "
               "another arithmetic type, as in {{1},{5}} for longs or doubles; two of three fields reach their box by copy-/move-assignment over the previous one) x the extremes catalogue per axis {lo,hi,+-1 step around each, "
               "midpoint, type max/lowest and their neighbours, 0, 1, -1, +-inf, +-denorm_min, min normal, -0} crossed over the axes (complete "
